@@ -206,7 +206,7 @@ def check_through_design(rng):
 def PROOFS():
     from ..contracts import transforms_c
     T = "formulae.transforms."
-    return [("vf.contracts.transforms_c", [T + "Center.__call__", T + "Scale.__call__", T + "BSpline.__call__", T + "BSpline.eval",
+    return [("vf.contracts.transforms_c", [T + "Center.__call__", T + "Scale.__call__", T + "BSpline.__call__", T + "BSpline._initialize", T + "BSpline.eval",
                                            T + "Polynomial.__init__"])]
 
 
